@@ -102,11 +102,11 @@ Qed.
 
 (* ---------- setHead ---------- *)
 Lemma tie_head_pos (x z : N) : (x < 32)%N -> (z < 32)%N ->
-  c14_setHead_writeAt_off (Z.of_N z) (Z.of_N x) = Z.of_N (4 * idx x z).
-Proof. intros Hx Hz. unfold c14_setHead_writeAt_off, idx. ws. lia. Qed.
-Lemma tie_head_pos_ts (x z : N) : (x < 32)%N -> (z < 32)%N ->
-  c14_setHead_writeAt_off_1 (Z.of_N z) (Z.of_N x) = Z.of_N (4096 + 4 * idx x z).
+  c14_setHead_writeAt_off_1 (Z.of_N z) (Z.of_N x) = Z.of_N (4 * idx x z).
 Proof. intros Hx Hz. unfold c14_setHead_writeAt_off_1, idx. ws. lia. Qed.
+Lemma tie_head_pos_ts (x z : N) : (x < 32)%N -> (z < 32)%N ->
+  c14_setHead_writeAt_off (Z.of_N z) (Z.of_N x) = Z.of_N (4096 + 4 * idx x z).
+Proof. intros Hx Hz. unfold c14_setHead_writeAt_off, idx. ws. lia. Qed.
 
 (* ---------- findSpace ---------- *)
 Lemma tie_probe (n i : N) : (n + i < 2^31)%N -> c14_findSpace_probe (Z.of_N n) (Z.of_N i) = Z.of_N (n + i).
